@@ -136,9 +136,16 @@ class RandomUtils():
         return word
 
     def remove_reserved_words(self, language):
-        reserved_words = get_reserved_words(self.resource_path, language)
-        self.INITIAL_WORDS = self.INITIAL_WORDS - reserved_words
-        self.WORDS = self.WORDS - reserved_words
+        # Identifiers are emitted as is, lower-cased or capitalized, so the
+        # comparison with the reserved words must ignore case.
+        reserved_words = {
+            w.lower()
+            for w in get_reserved_words(self.resource_path, language)
+        }
+        self.INITIAL_WORDS = {w for w in self.INITIAL_WORDS
+                              if w.lower() not in reserved_words}
+        self.WORDS = {w for w in self.WORDS
+                      if w.lower() not in reserved_words}
 
     def integer(self, min_int=0, max_int=10):
         return self.r.randint(min_int, max_int)
